@@ -894,10 +894,18 @@ const DISCRETE: [&str; 15] = [
 
 fn run_pair(cx: &mut Ctx, pair: &str, n_t: usize) {
     let fixed = params_for(pair, &mut cx.r.clone(), false).is_empty() && !pair.starts_with("Categorical~");
-    let reps = if fixed { 1 } else { n_t };
+    // parameter tuples that are always tried: the degrees of freedom just past the literal cut-over of
+    // Chi::pdf (160 → log-space path) and where the direct formula would overflow while the log-space path
+    // is still fine (321, 340)
+    let corners: Vec<Vec<f64>> = match pair {
+        "Chi(k)^2~ChiSquared(k)" => vec![vec![160.0], vec![161.0], vec![321.0], vec![340.0]],
+        _ => vec![],
+    };
+    let reps = if fixed { 1 } else { n_t + corners.len() };
     for ti in 0..reps {
         let ext = cx.thorough && ti % 2 == 1;
-        let p = params_for(pair, &mut cx.r, ext);
+        let p = if !fixed && ti >= n_t { corners[ti - n_t].clone() } else { params_for(pair, &mut cx.r, ext) };
+        let ext = ext && ti < n_t;
         let tag = ptag(pair, &p);
         let disc = DISCRETE.contains(&pair);
         let xs = if disc { pool_k(cx, pair, &p) } else { pool_f(cx, pair, &p) };
